@@ -353,6 +353,36 @@ pub fn run(s: &Scn, ctx: &mut RunCtx, prefix: &'static str) -> RunOutput {
                 }
             }
         }
+        // A rejected caller lost every refresh that fell within its timeout: a fixed window hands
+        // out `limit` fresh permits at each boundary (boundaries are at most one period apart, the
+        // first at most one period after the arrival), a sliding log frees a slot at the latest one
+        // period after each check. So at least floor(timeout/period) refreshes were tried, and each
+        // was lost to `limit` (fixed) / one (sliding log) admissions of other callers that happened
+        // after this caller's arrival and within its timeout. Only without cancelled callers, clock
+        // jumps and panicking listeners (a design with reservations could hold a place for those).
+        let undisturbed = jump == 0 && !s.listener_panic && s.callers.iter().all(|c| c.cancel == CancelSpec::Never);
+        if s.window != 2 && undisturbed && t.status == Status::Resolved && t.out.as_ref().and_then(|o| o.err) == Some("RateLimited") {
+            let refreshes = tout / p;
+            let per = if s.window == 0 { l as u64 } else { 1 };
+            let need = refreshes.saturating_mul(per);
+            let got = calls
+                .iter()
+                .filter(|c| c.req != i as u32 && c.start_seq > t.first_poll_seq && c.start_us <= a.saturating_add(tout))
+                .count() as u64;
+            if refreshes >= 1 {
+                world::probe("rejected_after_losing_refreshes");
+            }
+            if got < need {
+                world::violation(
+                    "C15.rejected_only_if_needed",
+                    if s.window == 0 { "fixed_competition" } else { "sliding_log_competition" },
+                    format!(
+                        "caller {} arrived at {}us and was rejected at {}us although its timeout {}us spans {} refreshes and only {} other callers were admitted after its arrival within that time (a rejection needs {}); {}",
+                        i, a, t.end_us, tout, refreshes, got, need, detail()
+                    ),
+                );
+            }
+        }
         match t.status {
             Status::Resolved => {
                 let o = t.out.as_ref().unwrap();
